@@ -77,7 +77,7 @@ LEAVES = {
     "KDRandomSolarize": [(dict(p=0.5, threshold=0.5), ["T3"]), (dict(p=0.5, threshold=128), ["PIL"])],
     "KDRandomThreshold": [(dict(p=0.5, threshold=0.5, threshold_std=0.1), ["T3"])],
     "KDSimpleRandomCrop": [(dict(size=8, padding=2, interpolation="bilinear"), ["T3"])],
-    "KDThreeAugment": [(dict(threshold=128, sigma=(0.1, 2.0)), ["PIL"]),
+    "KDThreeAugment": [(dict(threshold=128, sigma=(0.1, 2.0)), ["PIL"]), (dict(threshold=0.5, sigma=(0.1, 2.0)), ["T3"]),
                        (dict(threshold=0.5, sigma=(0.1, 2.0), kernel_size=3, blur_kind="tv"), ["T3"])],
     "KDThreshold": [(dict(threshold=0.5, threshold_std=0.1), ["T3"])],
     "PatchwiseRandomRotation": [(dict(), ["PATCH"])],
